@@ -33,7 +33,8 @@ impl<'a> CheckParams for Grammar<'a> {
             ));
         }
         let ux = x as usize;
-        if ux > self.conn_matrix().num_left() {
+        // valid ids are 0..num_left; id 0 (BOS/EOS) is accepted even if the grammar carries no matrix
+        if ux >= self.conn_matrix().num_left().max(1) {
             return Err(SudachiError::InvalidDataFormat(
                 ux,
                 format!("max grammar leftId is {}", self.conn_matrix().num_left()),
@@ -51,7 +52,8 @@ impl<'a> CheckParams for Grammar<'a> {
             ));
         }
         let ux = x as usize;
-        if ux > self.conn_matrix().num_right() {
+        // valid ids are 0..num_right; id 0 (BOS/EOS) is accepted even if the grammar carries no matrix
+        if ux >= self.conn_matrix().num_right().max(1) {
             return Err(SudachiError::InvalidDataFormat(
                 ux,
                 format!("max grammar rightId is {}", self.conn_matrix().num_right()),
